@@ -661,7 +661,9 @@ func c09Realises(pred, fate, class string) bool {
 // ---- program variants per skeleton. %T is the tick call (or nothing), chosen per job.
 var c09Variants = map[string][]string{
 	"loop":      {"for true {vtick()}", "i=0; for true {vtick(); i++}", "for 1<<62 {vtick()}", "func w(){for true {vtick()}}; w()", "a=[1,2,3]; for true {for x=a {vtick()}}"},
-	"loopempty": {"for true {}", "for 1<<62 {}", "for i=1<<62 {}", "func w(){for true {}}; w()", "for true {1+1}"},
+	"loopempty": {"for true {}", "for 1<<62 {}", "for i=1<<62 {}", "func w(){for true {}}; w()", "for true {1+1}",
+		// nested evaluators (their own blank state): the session's deadline must reach them
+		"unjson(\"for true {}\")", "eval(\"for true {}\")", "m = macro(x) {for true {}}; m(1)", "func w(){unjson(\"for true {}\")}; w()", "m = macro(x) {unjson(\"for true {}\")}; m(1)"},
 	"recurse": {"func f(n){vtick(); 1+f(n+1)}; f(0)", "f=func(n){vtick(); 1+self(n+1)}; f(0)", "func f(n){vtick(); [f(n+1)][0]}; f(0)",
 		"func f(a,b,c,d,e,g,h){vtick(); 1+f(a+1,b,c,d,e,g,h)}; f(0.5,\"b\",\"c\",\"d\",\"e\",\"g\",\"h\")", "func f(n){vtick(); if true {f(n+1)}}; f(0)", "func f(){vtick(); f()}; f()",
 		"func f(n){vtick(); {\"k\":f(n+1)}}; f(0)", "func f(n){vtick(); -f(n+1)}; f(0)"},
@@ -1236,6 +1238,10 @@ func c09Pinned(c *Ctx) []c09Plan {
 		c09Plan{WantMaxDepth: true, Job: c09Job{Skel: "recurse", Src: "func f(n){vtick(); 1+f(n+1)}; f(0)", MaxDepth: 10, DeadlineMs: 5000, CancelTick: 3, MemLimit: M64, Via: "one"}},
 		c09Plan{WantMaxDepth: true, Job: c09Job{Skel: "mutual", Src: "func a(n){vtick(); 1+b(n+1)}; func b(n){1+a(n+1)}; a(0)", MaxDepth: 99, DeadlineMs: 1000, MemLimit: M64, Via: "one"}},
 		c09Plan{Job: c09Job{Skel: "loopempty", Src: "for true {}", MaxDepth: 100, DeadlineMs: 100, MemLimit: M64, Via: "string"}},
+		c09Plan{Job: c09Job{Skel: "loopempty", Src: "unjson(\"for true {}\")", MaxDepth: 100, DeadlineMs: 100, MemLimit: M64, Via: "string"}},
+		c09Plan{Job: c09Job{Skel: "loopempty", Src: "eval(\"for true {}\")", MaxDepth: 100, DeadlineMs: 100, MemLimit: M64, Via: "one"}},
+		c09Plan{Job: c09Job{Skel: "loopempty", Src: "m = macro(x) {for true {}}; m(1)", MaxDepth: 100, DeadlineMs: 100, MemLimit: M64, Via: "one"}},
+		c09Plan{WantMaxDepth: true, Job: c09Job{Skel: "recurse", Src: "eval(\"func f(n){vtick(); 1+f(n+1)}; f(0)\")", MaxDepth: 10, DeadlineMs: 1000, MemLimit: M64, Via: "one"}},
 		c09Plan{Job: c09Job{Skel: "loop", Src: "for true {vtick()}", MaxDepth: 100, DeadlineMs: 5000, CancelTick: 1000, MemLimit: M64, Via: "one"}},
 		c09Plan{Job: c09Job{Skel: "sleep", Src: "sleep(30)", MaxDepth: 100, DeadlineMs: 100, MemLimit: M64, Via: "string"}},
 		c09Plan{WantRefuse: true, Job: c09Job{Skel: "arepeat", Src: "a=[1,2,3,4]*(1<<40); len(a)", MaxDepth: 100, DeadlineMs: 100, MemLimit: M64, Via: "string"}},
